@@ -17,6 +17,8 @@ VOCAB += ["ABSENT", "ABSTRACT-SYNTAX", "ALL", "BMPString", "BY", "CHARACTER", "C
           "VideotexString", "VisibleString"]
 
 SEEDS = [
+    # literals of every kind (hex / binary / character strings, negative numbers) as values and as DEFAULT
+    "Seed3 DEFINITIONS AUTOMATIC TAGS ::= BEGIN h OCTET STRING ::= 'AB12'H n INTEGER ::= -12 t UTF8String ::= \"a b\" f BOOLEAN ::= FALSE\n L ::= SEQUENCE { a OCTET STRING DEFAULT 'CF'H, b INTEGER (-5..5) DEFAULT -3, c IA5String DEFAULT \"x\", d BOOLEAN DEFAULT TRUE, e OCTET STRING (SIZE(2)) DEFAULT h } END",
     "Seed1 DEFINITIONS AUTOMATIC TAGS ::= BEGIN A ::= SEQUENCE { a INTEGER (0..7) OPTIONAL, b UTF8String DEFAULT \"hello world\",\n ..., c [APPLICATION 3] BOOLEAN } B ::= CHOICE { x A, y NULL, ..., z OCTET STRING (SIZE(1..4,...)) } END",
     "Seed2 { iso(1) org(3) 7 } DEFINITIONS AUTOMATIC TAGS ::= BEGIN IMPORTS K, v FROM Other { iso(1) 9 };\n lim INTEGER ::= 5  s UTF8String ::= \"a b\"\n E ::= ENUMERATED { red, green(5), ..., blue } L ::= SEQUENCE (SIZE(1..lim)) OF E\n I ::= INTEGER { one(1), two(2) } (MIN..lim,...) H ::= OCTET STRING (SIZE(2))  D ::= SET { e E DEFAULT red, h BIT STRING { f(0) } (SIZE(4)) } END",
 ]
@@ -66,7 +68,7 @@ def run(v):
     maxtok = max(len(m.split()) for m in mods) * 3
     vec = os.path.join(d, "faults.ndjson")
     K = 2 if quick else 3
-    cfg = "SPECIFICATION Spec\nCONSTANTS\n  MaxTok = %d\n  MaxChar = %d\n  V = %d\n  VC = 18\n  K = %d\n  MaxFaults = %d\nINVARIANT Emit\nCHECK_DEADLOCK FALSE\n"
+    cfg = "SPECIFICATION Spec\nCONSTANTS\n  MaxTok = %d\n  MaxChar = %d\n  V = %d\n  VC = 24\n  K = %d\n  MaxFaults = %d\nINVARIANT Emit\nCHECK_DEADLOCK FALSE\n"
     t = run_tlc("C14", "MC_TokenFaults", cfg % (min(maxtok, 400), min(maxchar, 2500), len(VOCAB), K, 0), replay_to=vec, coverage=False, heap="8g", timeout=3600)
     if t.violation or t.nreplay == 0:
         raise ToolError("MC_TokenFaults: %s" % t.violation)
@@ -126,7 +128,7 @@ def run(v):
     v.cov["evaluations"] += texts
     v.cov["distinct_nontrivial"] = t.nreplay + len(seen)
     v.cov["rule"] = ("MC_TokenFaults.tla generates the fault descriptors: every single deletion / swap / truncation of a lexical item, insertion of each "
-                     "of %d vocabulary items at every position, deletion of every character and insertion of each of 18 characters at every "
+                     "of %d vocabulary items at every position, deletion of every character and insertion of each of 24 characters (incl. 2-, 3- and 4-octet ones) at every "
                      "position, all token soups of length <= %d over the vocabulary (one TLC state each), and %d simulated behaviours of 1..4 "
                      "faults (seeded). Every descriptor is applied to each of %d seed modules (2 feature-rich hand-written ones + modules of the "
                      "repository's tests): %d mutated texts run through tokenizer, parser, resolver, Rust and protobuf model conversion under a "
